@@ -65,6 +65,7 @@ type Run struct {
 	Deadline      time.Time
 	classCount    map[string]int64
 	distinctExtra int64
+	unreproduced  int // failures whose case did not fail again when executed a second time (state kept by the code under test)
 }
 
 func New(prop, level string) *Run {
@@ -232,14 +233,22 @@ func (r *Run) Case(id string, fn func() *Fail) {
 	if f == nil {
 		return
 	}
+	if f.Detail == nil {
+		f.Detail = map[string]any{}
+	}
 	for i := 0; i < 2; i++ {
 		g := fn()
 		if g == nil || g.Key != f.Key {
-			Engine("%s case %s: failure did not reproduce on replay %d (first %q, then %v)", r.Prop, id, i+1, f.Key, g)
+			// The inputs of a case are constants of the harness, so a verdict that changes when the same case is executed again
+			// means that the code under test keeps state between calls (a pool, a cache, a remembered result): the failure that
+			// was observed is real, it just depends on what the process did before. It is reported as observed, and marked.
+			f.What += fmt.Sprintf(" [observed once; executing the same case again gave %v: the verdict depends on earlier calls in this process]", map[bool]string{true: "no failure", false: "another failure"}[g == nil])
+			f.Detail = map[string]any{"reproduced_when_executed_again": false, "detail": f.Detail}
+			r.mu.Lock()
+			r.unreproduced++
+			r.mu.Unlock()
+			break
 		}
-	}
-	if f.Detail == nil {
-		f.Detail = map[string]any{}
 	}
 	r.Report(id, *f)
 }
@@ -321,6 +330,9 @@ func (r *Run) Finish() {
 	}
 	if len(r.samples) == 0 {
 		r.samples = append(r.samples, "no sample recorded")
+	}
+	if r.unreproduced > 0 {
+		cov["failures_not_reproduced_when_executed_again"] = r.unreproduced
 	}
 	cov["evaluations"] = r.evaluations
 	cov["distinct_nontrivial"] = int64(len(r.distinct)) + r.distinctExtra
